@@ -1,4 +1,5 @@
 import TexelVerif.Drv.TT
+import TexelVerif.Drv.TB
 /-! Line-protocol driver: one operation per stdin line, one canonical reply line.
     Imports model files only (no proofs, no Mathlib), so it links as a `lean_exe`. -/
 
@@ -9,6 +10,7 @@ def dispatch (st : DrvState) (line : String) : DrvState × String :=
   let toks := (line.trimAscii.toString.splitOn " ").filter (· ≠ "")
   match toks with
   | "tt" :: args => let (t, o) := Drv.TT.step st.tt args; ({ st with tt := t }, o)
+  | "tb" :: args => (st, Drv.TB.step args)
   | _ => (st, "bad-op")
 
 partial def loop (h : IO.FS.Stream) (out : IO.FS.Stream) (st : DrvState) : IO Unit := do
@@ -18,7 +20,9 @@ partial def loop (h : IO.FS.Stream) (out : IO.FS.Stream) (st : DrvState) : IO Un
   out.putStrLn o
   loop h out st'
 
-def main : IO Unit := do
+def main (args : List String) : IO UInt32 := do
+  if !args.isEmpty then return (← Drv.TB.mainArgs args)   -- command-line modes (C12: need a table file)
   let out ← IO.getStdout
   loop (← IO.getStdin) out {}
   out.flush
+  return 0
